@@ -281,6 +281,36 @@ def check_guarded_reads(ctx, rep, funcs, rule=RULE + '.c'):
                         if _canon(u(it)) == want_map and _canon(u(kt)) == want_key:
                             # ... and the loop does not delete from the map
                             guarded = True
+                        # the key ranges over a local list of keys that were filtered by their presence in the map (or in a
+                        # table built from the keys of the map):  applicable = sorted(k for k in cands if k in rank);  for key in applicable
+                        if not guarded and isinstance(it, ast.Name) and isinstance(kt, ast.Name) and _canon(u(kt)) == want_key:
+                            keysets = {want_map}
+                            for st0 in walk_no_nested(f.node):
+                                if isinstance(st0, ast.Assign) and len(st0.targets) == 1 and isinstance(st0.targets[0], ast.Name):
+                                    v0 = st0.value
+                                    if isinstance(v0, (ast.DictComp, ast.SetComp)) and len(v0.generators) == 1 and not v0.generators[0].ifs:
+                                        g1 = v0.generators[0]
+                                        src1 = g1.iter
+                                        tg1 = g1.target
+                                        if isinstance(src1, ast.Call) and isinstance(src1.func, ast.Name) and src1.func.id == 'enumerate' and src1.args and isinstance(tg1, ast.Tuple) and len(tg1.elts) == 2:
+                                            src1, tg1 = src1.args[0], tg1.elts[1]
+                                        kexpr = v0.key if isinstance(v0, ast.DictComp) else v0.elt
+                                        if _canon(u(src1)) == want_map and u(kexpr) == u(tg1):
+                                            keysets.add(st0.targets[0].id)
+                                    if isinstance(v0, ast.Call) and isinstance(v0.func, ast.Name) and v0.func.id in ('set', 'frozenset', 'list', 'tuple') and len(v0.args) == 1 and _canon(u(v0.args[0])) == want_map:
+                                        keysets.add(st0.targets[0].id)
+                            for st0 in walk_no_nested(f.node):
+                                if isinstance(st0, ast.Assign) and len(st0.targets) == 1 and isinstance(st0.targets[0], ast.Name) and st0.targets[0].id == it.id:
+                                    v0 = st0.value
+                                    if isinstance(v0, ast.Call) and isinstance(v0.func, ast.Name) and v0.func.id in ('sorted', 'list', 'tuple') and v0.args:
+                                        v0 = v0.args[0]
+                                    if isinstance(v0, (ast.GeneratorExp, ast.ListComp)) and len(v0.generators) == 1 and isinstance(v0.generators[0].target, ast.Name) and u(v0.elt) == v0.generators[0].target.id:
+                                        t1 = v0.generators[0].target.id
+                                        for c1 in v0.generators[0].ifs:
+                                            for c2 in (c1.values if isinstance(c1, ast.BoolOp) and isinstance(c1.op, ast.And) else [c1]):
+                                                if isinstance(c2, ast.Compare) and len(c2.ops) == 1 and isinstance(c2.ops[0], ast.In) and u(c2.left) == t1 and (_canon(u(c2.comparators[0])) in keysets or u(c2.comparators[0]) in keysets):
+                                                    if len([d0 for d0 in walk_no_nested(f.node) if isinstance(d0, ast.Assign) and any(isinstance(t0, ast.Name) and t0.id == it.id for t0 in d0.targets)]) == 1:
+                                                        guarded = True
             if guarded:
                 rep.holds(rule, f, e, 'read of {}.delta is dominated by the membership test on the same key'.format(base[0]))
             else:
